@@ -816,12 +816,14 @@ class Registry:
             if n not in bound:
                 if n not in c.defaults:
                     raise ContractDrift(f"{c.key}: missing argument {n}")
-                saved = eng.spec
+                saved, saved_mod = eng.spec, eng.mod
                 eng.spec = True
+                if c.module is not None:
+                    eng.mod = extract.module(c.module)   # a default is evaluated in the scope of the function that declares it
                 try:
                     bound[n] = eng.ev1(self.parse_spec(c.defaults[n]), cs)
                 finally:
-                    eng.spec = saved
+                    eng.spec, eng.mod = saved, saved_mod
             try:
                 a_ = bound[n]
                 if (a_.t[0] == "obj" and c.params[n][0] == "obj" and a_.t != c.params[n] and c.params[n][1] in OBJ_LAYOUT
